@@ -816,6 +816,38 @@ fn race_case(out: &mut Out, idx: u64, l: Limits, which: u8) {
     out.end();
 }
 
+/// A peer with two connections takes part in a circuit over one of them; the OTHER connection
+/// closes; then further circuit requests: the circuit must still count against the limits.
+fn otherconn_case(out: &mut Out, idx: u64, l: Limits, which: u8) {
+    let npeers = 4u8;
+    out.case(idx, &format!("otherconn{which} nt=1 {}", header(l, npeers)));
+    let mut w = World::new(l);
+    // c0, c1: peer 0; c2, c4: peer 1; c3: peer 2
+    let mut ops = vec![Op::Conn(0), Op::Conn(0), Op::Conn(1), Op::Conn(2), Op::Conn(1), Op::Reserve(2), Op::Reserve(3)];
+    match which {
+        // the source's other connection closes
+        0 => ops.extend([Op::Circuit(0, 1), Op::CloseConn(1), Op::Circuit(0, 2), Op::Circuit(3, 1), Op::Circuit(0, 1)]),
+        // the destination's other connection closes
+        1 => ops.extend([Op::Circuit(0, 1), Op::CloseConn(4), Op::Circuit(3, 1), Op::Circuit(0, 2), Op::Circuit(1, 1)]),
+        // both, then the circuit itself closes and a new one fits again
+        _ => ops.extend([
+            Op::Circuit(0, 1), Op::CloseConn(1), Op::CloseConn(4), Op::Circuit(0, 2), Op::Circuit(3, 1),
+            Op::CloseCirc(0), Op::Circuit(0, 2), Op::Circuit(3, 1),
+        ]),
+    }
+    for op in &ops {
+        let ok = match op {
+            Op::Reserve(c) | Op::Circuit(c, _) | Op::CloseConn(c) => *c < w.clients.len() && w.clients[*c].open,
+            Op::CloseCirc(id) => w.circ_owner.contains_key(id),
+            _ => true,
+        };
+        if ok {
+            exec(&mut w, out, op, npeers);
+        }
+    }
+    out.end();
+}
+
 pub fn run(args: &Args, out: &mut Out) {
     if let Some(cases) = args.replay_cases() {
         for (i, (hdr, ops)) in cases.iter().enumerate() {
@@ -892,6 +924,12 @@ pub fn run(args: &Args, out: &mut Out) {
     for which in 0..4u8 {
         for (max_res, per_peer) in [(4usize, 1usize), (2, 1), (2, 2), (4, 2)] {
             race_case(out, idx, Limits { max_res, max_res_peer: per_peer, max_circ: 4, max_circ_peer: 2 }, which);
+            idx += 1;
+        }
+    }
+    for which in 0..3u8 {
+        for (max_circ, per_peer) in [(4usize, 1usize), (1, 2), (2, 2), (4, 2), (2, 1)] {
+            otherconn_case(out, idx, Limits { max_res: 4, max_res_peer: 2, max_circ, max_circ_peer: per_peer }, which);
             idx += 1;
         }
     }
